@@ -1,4 +1,5 @@
 import ArrProofs.Lemmas.C13Repeat
+import ArrProofs.Lemmas.C13Empty
 /-!
 # C13 — delete, insert, append and repeat change exactly the addressed positions
 
@@ -362,5 +363,289 @@ example : expandIdx [2, 0, 1] = [0, 0, 2] := by decide
 example : sample.repeatAxis 0 [2, 0, 1] 1 = .ok ⟨[0, 1, 0, 1, 4, 5, 6, 7, 6, 7, 10, 11], [2, 3, 2]⟩ := by decide +kernel
 example := (repeatFlat_spec sample 2 (by decide)).1 (by decide)
 example := repeatFlat_counts_spec (Arr.flat [5, 6, 7]) [2, 0, 1] 3 (by decide) rfl (by decide) rfl
+
+/-! ## 7. arrays with a zero-length axis along an axis; totality of `delete` and of `repeat` along an axis -/
+
+/-- **`delete` along an axis of a well-formed array that has a zero-length axis** — complete.  When an axis OTHER than
+the working axis is empty the call is `Err(ParameterError)` whatever the request (the lane count is zero and
+`apply_along_axis` asks `split` for zero parts).  Otherwise the working axis is the empty one: the empty request returns
+the array unchanged, every other request is `Err(OutOfBounds)` (each index is beyond the empty lane). -/
+theorem delete_axis_zero_spec (a : Arr α) (zero : α) (idxs : List Nat) (axis : Nat)
+    (hwf : a.WF) (hax : axis < a.ndim) (hz : 0 ∈ a.shape) :
+    (0 ∈ a.shape.eraseIdx axis → a.delete zero idxs (some axis) = .err .ParameterError) ∧
+    (0 ∉ a.shape.eraseIdx axis → a.shape.getD axis 0 = 0 ∧
+      (idxs = [] → a.delete zero idxs (some axis) = .ok a) ∧
+      (idxs ≠ [] → a.delete zero idxs (some axis) = .err .OutOfBounds)) := by
+  obtain ⟨h1, h2, h3⟩ := Arr.delete_axis_zero a zero idxs axis hwf hax hz
+  refine ⟨fun h => h1 (prod_eq_zero_of_mem _ h), ?_⟩
+  intro h
+  have hP : (a.shape.eraseIdx axis).prod ≠ 0 := by have := prod_pos_of_not_mem _ h; omega
+  refine ⟨?_, h2 hP, h3 hP⟩
+  rcases zero_axis_cases a.shape axis hax hz with h' | h'
+  · exact absurd h' hP
+  · exact h'.2
+
+/-- **`delete` never panics on a well-formed array**: no axis / any axis (inside the rank or not), any request, zero-length
+axes included — the answer is data or an error -/
+theorem delete_total (a : Arr α) (zero : α) (idxs : List Nat) (axis : Option Nat) (hwf : a.WF) :
+    a.delete zero idxs axis ≠ .panic := by
+  cases axis with
+  | none =>
+    rw [delete_none]
+    by_cases hb : ∀ i ∈ idxs, i < a.elems.length
+    · rw [(deleteFlat_spec a idxs).1 hb]; simp
+    · have : ∃ i ∈ idxs, a.elems.length ≤ i := by
+        apply Classical.byContradiction; intro hn; apply hb; intro i hi
+        apply Classical.byContradiction; intro hlt; exact hn ⟨i, hi, by omega⟩
+      rw [(deleteFlat_spec a idxs).2 this]; simp
+  | some axis =>
+    by_cases hax : axis < a.ndim
+    · by_cases hz : 0 ∈ a.shape
+      · obtain ⟨h1, h2⟩ := delete_axis_zero_spec a zero idxs axis hwf hax hz
+        by_cases h0 : 0 ∈ a.shape.eraseIdx axis
+        · rw [h1 h0]; simp
+        · obtain ⟨_, g1, g2⟩ := h2 h0
+          by_cases hi : idxs = []
+          · rw [g1 hi]; simp
+          · rw [g2 hi]; simp
+      · by_cases hb : ∀ i ∈ idxs, i < a.shape.getD axis 0
+        · obtain ⟨r, hr, _⟩ := delete_axis_spec a zero idxs axis hwf hax hz hb
+          rw [hr]; simp
+        · have : ∃ i ∈ idxs, a.shape.getD axis 0 ≤ i := by
+            apply Classical.byContradiction; intro hn; apply hb; intro i hi
+            apply Classical.byContradiction; intro hlt; exact hn ⟨i, hi, by omega⟩
+          rw [(delete_axis_rejects a zero idxs axis).1 hwf hax hz this]; simp
+    · rw [(delete_axis_rejects a zero idxs axis).2 (by omega)]; simp
+
+/-- **`repeat` along an axis of a well-formed array that has a zero-length axis** — complete.  When the working axis is
+the empty one every count vector is refused (`broadcast_to([0])` fails).  Otherwise (another axis is empty) a count
+vector of the axis length or a single count gives the empty array whose working axis has length `Σ counts`; any other
+count vector is refused. -/
+theorem repeatAxis_zero_spec (a : Arr α) (zero : α) (repeats : List Nat) (axis : Nat)
+    (hwf : a.WF) (hax : axis < a.ndim) (hz : 0 ∈ a.shape) :
+    (a.shape.getD axis 0 = 0 → a.repeatAxis zero repeats axis = .err .BroadcastShapeMismatch) ∧
+    (a.shape.getD axis 0 ≠ 0 → (repeats.length = a.shape.getD axis 0 ∨ repeats.length = 1) →
+      a.repeatAxis zero repeats axis = .ok ⟨[], a.shape.set axis (bc1 repeats (a.shape.getD axis 0)).sum⟩) ∧
+    (a.shape.getD axis 0 ≠ 0 → ¬ (repeats.length = a.shape.getD axis 0 ∨ repeats.length = 1) →
+      a.repeatAxis zero repeats axis = .err .BroadcastShapeMismatch) :=
+  ⟨fun h => repeatAxis_count_err' a zero repeats axis hax (by omega),
+   fun hn hr => Arr.repeatAxis_zero_ok a zero repeats axis hwf hax hz hn hr,
+   fun _ hr => repeatAxis_count_err' a zero repeats axis hax (fun h => hr h.2)⟩
+
+/-- **`repeat` along an axis is total on well-formed arrays** (zero-length axes included, no hypothesis on the axis or
+the counts): `Err(AxisOutOfBounds)` exactly for an axis outside the rank; otherwise `Err(BroadcastShapeMismatch)` exactly
+when the axis is empty or the count vector has neither the axis length nor length 1; otherwise a well-formed array whose
+working axis has length `Σ counts`, all other axes kept.  Never a panic. -/
+theorem repeatAxis_total (a : Arr α) (zero : α) (repeats : List Nat) (axis : Nat) (hwf : a.WF) :
+    (a.ndim ≤ axis ∧ a.repeatAxis zero repeats axis = .err .AxisOutOfBounds) ∨
+    (axis < a.ndim ∧ ¬ (0 < a.shape.getD axis 0 ∧ (repeats.length = a.shape.getD axis 0 ∨ repeats.length = 1)) ∧
+      a.repeatAxis zero repeats axis = .err .BroadcastShapeMismatch) ∨
+    (axis < a.ndim ∧ 0 < a.shape.getD axis 0 ∧ (repeats.length = a.shape.getD axis 0 ∨ repeats.length = 1) ∧
+      ∃ r, a.repeatAxis zero repeats axis = .ok r ∧
+        r.shape = a.shape.set axis (bc1 repeats (a.shape.getD axis 0)).sum ∧ r.WF) := by
+  by_cases hax : axis < a.ndim
+  · by_cases hc : 0 < a.shape.getD axis 0 ∧ (repeats.length = a.shape.getD axis 0 ∨ repeats.length = 1)
+    · refine .inr (.inr ⟨hax, hc.1, hc.2, ?_⟩)
+      by_cases hz : 0 ∈ a.shape
+      · refine ⟨_, Arr.repeatAxis_zero_ok a zero repeats axis hwf hax hz (by omega) hc.2, rfl, ?_⟩
+        have hax' : axis < a.shape.length := hax
+        have hP : (a.shape.eraseIdx axis).prod = 0 := by
+          rcases zero_axis_cases a.shape axis hax' hz with h | h
+          · exact h
+          · omega
+        show ([] : List α).length = _
+        rw [prod_set_eraseIdx _ _ _ hax', hP]; simp
+      · obtain ⟨r, h1, h2, h3, _⟩ := repeatAxis_spec a zero repeats axis hwf hax hz hc.2
+        exact ⟨r, h1, h2, h3⟩
+    · exact .inr (.inl ⟨hax, hc, repeatAxis_count_err' a zero repeats axis hax hc⟩)
+  · exact .inl ⟨by omega, (repeatAxis_rejects a zero repeats axis).1 (by omega)⟩
+
+/-! ## 8. flat `repeat` with counts broadcast along the last axis (any rank) -/
+
+/-- **flat repeat, counts broadcast to the array's shape, EVERY rank ≥ 1**: for a well-formed array of shape `P ++ [L]`
+with a non-empty last axis and a count vector `R` with one count per index of the LAST axis (or a single count — then it
+is used for every index; zeros allowed; leading axes may be empty), the call succeeds; the counts actually used are
+`T` = the vector tiled once per row (`T[i] = R[i mod L]`, one count per element of the flattened array); element `i` is
+emitted `T[i]` consecutive times, in order; the result is flat with `P.prod · Σ R` elements; and output position `j`
+holds the element whose flat index is the `j`-th entry of the run-length expansion of `T`.
+(For rank 1 this is `repeatFlat_counts_spec`; with a single count it is `repeatFlat_spec`.) -/
+theorem repeatFlat_bcast_spec (a : Arr α) (repeats : List Nat) (P : List Nat) (L : Nat)
+    (hwf : a.WF) (hs : a.shape = P ++ [L]) (hL : 0 < L) (hr : repeats.length = L ∨ repeats.length = 1) :
+    ∃ r, a.repeatFlat repeats = .ok r ∧
+      r.elems = (a.elems.zip (List.replicate P.prod (bc1 repeats L)).flatten).flatMap (fun p => List.replicate p.2 p.1) ∧
+      ((List.replicate P.prod (bc1 repeats L)).flatten).length = a.elems.length ∧
+      (∀ i, i < a.elems.length → ((List.replicate P.prod (bc1 repeats L)).flatten)[i]? = (bc1 repeats L)[i % L]?) ∧
+      r.shape = [P.prod * (bc1 repeats L).sum] ∧ r.elems.length = P.prod * (bc1 repeats L).sum ∧
+      ∀ j : Nat, r.elems[j]? =
+        (expandIdx (List.replicate P.prod (bc1 repeats L)).flatten)[j]?.bind (fun i => a.elems[i]?) := by
+  have hRl : (bc1 repeats L).length = L := bc1_length _ _ hr
+  generalize hR : bc1 repeats L = R at hRl
+  obtain ⟨t1, t2, t3⟩ := tile_spec R P.prod
+  have hlen : a.elems.length = P.prod * L := by rw [hwf, hs]; simp [List.prod_append]
+  rw [hRl] at t1 t3
+  have hl : ((a.elems.zip (List.replicate P.prod R).flatten).flatMap (fun p => List.replicate p.2 p.1)).length
+      = P.prod * R.sum := by
+    rw [zip_flatMap_replicate_length _ _ (by omega), t2]
+  have hcall := repeatFlat_lastaxis a repeats P L hs hL hr
+  rw [hR] at hcall
+  refine ⟨_, hcall, rfl, by omega, fun i hi => t3 i (by omega), ?_, hl, ?_⟩
+  · show [List.length _] = _; rw [hl]
+  · intro j
+    show ((a.elems.zip (List.replicate P.prod R).flatten).flatMap (fun p => List.replicate p.2 p.1))[j]? = _
+    cases he : a.elems with
+    | nil =>
+      have h0 : (List.replicate P.prod R).flatten = [] := List.eq_nil_of_length_eq_zero (by rw [t1, ← hlen, he]; rfl)
+      rw [h0]; rfl
+    | cons d ds =>
+      rw [← he, zip_flatMap_replicate_eq d a.elems _ (by omega), List.getElem?_map]
+      cases hj : (expandIdx (List.replicate P.prod R).flatten)[j]? with
+      | none => rfl
+      | some i =>
+        have hi : i < ((List.replicate P.prod R).flatten).length := expandIdx_lt _ i (List.mem_of_getElem? hj)
+        simp [List.getD_eq_getElem?_getD, List.getElem?_eq_getElem (show i < a.elems.length by omega)]
+
+/-- **the other count vectors of flat repeat, and totality**: for a shape `P ++ [L]` an empty last axis, an empty count
+vector, or a count vector whose length is neither `L` nor 1 (with `L ≠ 1`) is `Err(BroadcastShapeMismatch)`; in the one
+remaining region — last axis of length 1 and two or more counts — the equal-count shortcut of `broadcast_to` accepts
+exactly `P.prod` counts (one per element, in order) and refuses every other number; a rank-0 receiver accepts exactly one
+count.  Together with `repeatFlat_bcast_spec` this is exhaustive: flat repeat never panics, on any array. -/
+theorem repeatFlat_total (a : Arr α) (repeats : List Nat) :
+    (∀ P L, a.shape = P ++ [L] →
+      (L = 0 ∨ repeats.length = 0 ∨ (repeats.length ≠ L ∧ repeats.length ≠ 1 ∧ L ≠ 1)) →
+      a.repeatFlat repeats = .err .BroadcastShapeMismatch) ∧
+    (∀ P, a.shape = P ++ [1] → 2 ≤ repeats.length →
+      a.repeatFlat repeats =
+        if repeats.length = P.prod then .ok (Arr.flat ((a.elems.zip repeats).flatMap (fun p => List.replicate p.2 p.1)))
+        else .err .BroadcastShapeMismatch) ∧
+    (a.shape = [] →
+      a.repeatFlat repeats =
+        if repeats.length = 1 then .ok (Arr.flat ((a.elems.zip repeats).flatMap (fun p => List.replicate p.2 p.1)))
+        else .err .BroadcastShapeMismatch) ∧
+    a.repeatFlat repeats ≠ .panic :=
+  ⟨fun P L hs h => repeatFlat_clash a repeats P L hs h, fun P hs hk => repeatFlat_unit_last a repeats P hs hk,
+   fun hs => repeatFlat_rank0 a repeats hs, repeatFlat_no_panic a repeats⟩
+
+/-! ## 9. flat `insert` is total -/
+
+/-- **flat insert, total case analysis** — for EVERY receiver, index list and value array (no well-formedness, rank or
+length hypothesis; a value array that is not well formed or not 1-D included) exactly one of four things happens, in the
+order the code tests them, and none of them is a panic:
+1. some index is beyond `len` → `Err(OutOfBounds)`;
+2. otherwise the value array is not 1-D (its rank is read off its shape vector; its elements are not looked at) or the
+   receiver has rank 0 → `Err(UnsupportedDimension)`;
+3. otherwise the number of indices `k` and of value ELEMENTS `m` are not broadcast-compatible (one of them 0, or
+   `k ≠ m` with neither equal to 1) → `Err(BroadcastShapeMismatch)`;
+4. otherwise the call succeeds: with `N = max k m` and `S` = the stable sort by index of the `N` (index, value) pairs
+   (indices and values each stretched to `N`), the result is the flat array of `len + N` elements in which the `j`-th
+   pair of `S` sits at position `S[j].index + j`, and removing those `N` positions gives back the old elements in order. -/
+theorem insertFlat_total (a : Arr α) (idxs : List Nat) (values : Arr α) :
+    ((∃ i ∈ idxs, a.elems.length < i) ∧ a.insertFlat idxs values = .err .OutOfBounds) ∨
+    ((∀ i ∈ idxs, i ≤ a.elems.length) ∧ (values.ndim ≠ 1 ∨ a.ndim = 0) ∧
+      a.insertFlat idxs values = .err .UnsupportedDimension) ∨
+    ((∀ i ∈ idxs, i ≤ a.elems.length) ∧ values.ndim = 1 ∧ 1 ≤ a.ndim ∧
+      (idxs.length = 0 ∨ values.elems.length = 0 ∨
+        (idxs.length ≠ values.elems.length ∧ idxs.length ≠ 1 ∧ values.elems.length ≠ 1)) ∧
+      a.insertFlat idxs values = .err .BroadcastShapeMismatch) ∨
+    ((∀ i ∈ idxs, i ≤ a.elems.length) ∧ values.ndim = 1 ∧ 1 ≤ a.ndim ∧ 0 < idxs.length ∧ 0 < values.elems.length ∧
+      (idxs.length = values.elems.length ∨ idxs.length = 1 ∨ values.elems.length = 1) ∧
+      ∃ r S, S = sortByIdx ((bc1 idxs (max idxs.length values.elems.length)).zip
+                (bc1 values.elems (max idxs.length values.elems.length))) ∧
+        a.insertFlat idxs values = .ok r ∧ r.shape = [r.elems.length] ∧
+        S.length = max idxs.length values.elems.length ∧
+        r.elems.length = a.elems.length + max idxs.length values.elems.length ∧
+        (∀ j (hj : j < S.length), r.elems[S[j].1 + j]? = some S[j].2) ∧
+        (r.elems.zipIdx.filter (fun p => decide (p.2 ∉ S.zipIdx.map (fun q => q.1.1 + q.2)))).map (·.1) = a.elems) := by
+  by_cases hb : ∀ i ∈ idxs, i ≤ a.elems.length
+  · by_cases hd : values.ndim ≠ 1 ∨ a.ndim = 0
+    · exact .inr (.inl ⟨hb, hd, (insertFlat_rejects a idxs values).2.1 hb hd⟩)
+    · have hv : values.ndim = 1 := by
+        apply Classical.byContradiction; intro h; exact hd (.inl h)
+      have ha : 1 ≤ a.ndim := by
+        rcases Nat.eq_zero_or_pos a.ndim with h | h
+        · exact absurd (.inr h) hd
+        · exact h
+      by_cases hc : idxs.length = 0 ∨ values.elems.length = 0 ∨
+          (idxs.length ≠ values.elems.length ∧ idxs.length ≠ 1 ∧ values.elems.length ≠ 1)
+      · exact .inr (.inr (.inl ⟨hb, hv, ha, hc, (insertFlat_rejects a idxs values).2.2 hb hv ha hc⟩))
+      · have hk : 0 < idxs.length := by omega
+        have hm : 0 < values.elems.length := by omega
+        have hcc : idxs.length = values.elems.length ∨ idxs.length = 1 ∨ values.elems.length = 1 := by omega
+        refine .inr (.inr (.inr ⟨hb, hv, ha, hk, hm, hcc, ?_⟩))
+        have hok := Arr.insertFlat_ok a idxs values hv ha hk hm hcc hb
+        generalize hN : max idxs.length values.elems.length = N at hok ⊢
+        have hl1 : (bc1 idxs N).length = N := bc1_length _ _ (by omega)
+        have hl2 : (bc1 values.elems N).length = N := bc1_length _ _ (by omega)
+        have hSl : (sortByIdx ((bc1 idxs N).zip (bc1 values.elems N))).length = N := by
+          rw [sortByIdx_length, List.length_zip, hl1, hl2, Nat.min_self]
+        have hS : ∀ p ∈ sortByIdx ((bc1 idxs N).zip (bc1 values.elems N)), p.1 ≤ a.elems.length := fun p hp =>
+          hb _ (mem_bc1 _ _ _ (List.of_mem_zip ((sortByIdx_perm _).mem_iff.1 hp)).1)
+        obtain ⟨h1, h2, h3, _⟩ := insertAllAt_spec a.elems _ (sortByIdx_sorted ((bc1 idxs N).zip (bc1 values.elems N))) hS
+        refine ⟨_, _, rfl, hok, rfl, hSl, ?_, h2, h3⟩
+        show (insertAllAt _ _).length = _
+        rw [h1, hSl]
+  · have : ∃ i ∈ idxs, a.elems.length < i := by
+      apply Classical.byContradiction; intro hn; apply hb; intro i hi
+      apply Classical.byContradiction; intro hlt; exact hn ⟨i, hi, by omega⟩
+    exact .inl ⟨this, (insertFlat_rejects a idxs values).1 this⟩
+
+/-- flat insert never panics (any receiver, any index list, any value array) -/
+theorem insertFlat_no_panic (a : Arr α) (idxs : List Nat) (values : Arr α) : a.insertFlat idxs values ≠ .panic := by
+  rcases insertFlat_total a idxs values with h | h | h | h
+  · rw [h.2]; simp
+  · rw [h.2.2]; simp
+  · rw [h.2.2.2.2]; simp
+  · obtain ⟨_, _, _, _, _, _, r, S, _, hr, _⟩ := h
+    rw [hr]; simp
+
+/-! ### non-vacuity for sections 7-9 (shapes `[2,0]`, `[0,3]`, `[2,0,3]`; no `decide` through `List.mergeSort`) -/
+
+def e20 : Arr Nat := ⟨[], [2, 0]⟩
+def e03 : Arr Nat := ⟨[], [0, 3]⟩
+def e203 : Arr Nat := ⟨[], [2, 0, 3]⟩
+
+example : e20.WF ∧ 0 ∈ e20.shape ∧ e03.WF ∧ 0 ∈ e03.shape ∧ e203.WF ∧ 0 ∈ e203.shape := by decide
+-- delete: the empty axis is the working axis ([2,0] axis 1; [2,0,3] axis 1), or another one ([2,0] axis 0; [0,3] axis 1)
+example : 0 ∉ e20.shape.eraseIdx 1 ∧ 0 ∈ e20.shape.eraseIdx 0 ∧ 0 ∈ e03.shape.eraseIdx 1 ∧ 0 ∉ e203.shape.eraseIdx 1 := by
+  decide
+example : e20.delete 0 [] (some 1) = .ok e20 :=
+  ((delete_axis_zero_spec e20 0 [] 1 (by decide) (by decide) (by decide)).2 (by decide)).2.1 rfl
+example : e203.delete 0 [0] (some 1) = .err .OutOfBounds :=
+  ((delete_axis_zero_spec e203 0 [0] 1 (by decide) (by decide) (by decide)).2 (by decide)).2.2 (by decide)
+example : e20.delete 0 [] (some 0) = .err .ParameterError :=
+  (delete_axis_zero_spec e20 0 [] 0 (by decide) (by decide) (by decide)).1 (by decide)
+example : e03.delete 0 [1] (some 1) = .err .ParameterError :=
+  (delete_axis_zero_spec e03 0 [1] 1 (by decide) (by decide) (by decide)).1 (by decide)
+-- repeat along an axis
+example : e20.repeatAxis 0 [3] 1 = .err .BroadcastShapeMismatch :=
+  (repeatAxis_zero_spec e20 0 [3] 1 (by decide) (by decide) (by decide)).1 (by decide)
+example : e20.repeatAxis 0 [3, 1] 0 = .ok ⟨[], [4, 0]⟩ :=
+  (repeatAxis_zero_spec e20 0 [3, 1] 0 (by decide) (by decide) (by decide)).2.1 (by decide) (.inl (by decide))
+example : e203.repeatAxis 0 [2] 2 = .ok ⟨[], [2, 0, 6]⟩ :=
+  (repeatAxis_zero_spec e203 0 [2] 2 (by decide) (by decide) (by decide)).2.1 (by decide) (.inr rfl)
+example : e03.repeatAxis 0 [1, 1] 1 = .err .BroadcastShapeMismatch :=
+  (repeatAxis_zero_spec e03 0 [1, 1] 1 (by decide) (by decide) (by decide)).2.2 (by decide) (by decide)
+example : e203.repeatAxis 0 [2] 2 = .ok ⟨[], [2, 0, 6]⟩ := by decide +kernel
+-- flat repeat with counts along the last axis of a rank-2 / rank-3 array; an empty LEADING axis; an empty last axis
+example := repeatFlat_bcast_spec (⟨[10, 11, 12, 13, 14, 15], [2, 3]⟩ : Arr Nat) [2, 0, 1] [2] 3 (by decide) rfl (by decide)
+  (.inl rfl)
+example : (⟨[10, 11, 12, 13, 14, 15], [2, 3]⟩ : Arr Nat).repeatFlat [2, 0, 1] = .ok (Arr.flat [10, 10, 12, 13, 13, 15]) := by
+  decide +kernel
+example : (List.replicate 2 (bc1 [2, 0, 1] 3)).flatten = [2, 0, 1, 2, 0, 1] := by decide
+example := repeatFlat_bcast_spec sample [1, 2] [2, 3] 2 (by decide) rfl (by decide) (.inl rfl)
+example := repeatFlat_bcast_spec e03 [1, 2, 3] [0] 3 (by decide) rfl (by decide) (.inl rfl)
+example : e03.repeatFlat [1, 2, 3] = .ok (Arr.flat []) := by decide +kernel
+example : e20.repeatFlat [1] = .err .BroadcastShapeMismatch :=
+  (repeatFlat_total e20 [1]).1 [2] 0 rfl (.inl rfl)
+example : (⟨[7, 8, 9], [3, 1]⟩ : Arr Nat).repeatFlat [2, 0, 1] = .ok (Arr.flat [7, 7, 9]) := by decide +kernel
+-- flat insert: a value array that is not 1-D, one that is not well formed (2 elements under shape [5]), an empty one
+example : (Arr.flat [7, 8, 9]).insertFlat [1] ⟨[1, 2, 3, 4], [2, 2]⟩ = .err .UnsupportedDimension :=
+  (insertFlat_rejects _ _ _).2.1 (by decide) (.inl (by decide))
+example : ¬ (⟨[100, 200], [5]⟩ : Arr Nat).WF := by decide
+example : (Arr.flat [7, 8, 9]).insertFlat [1] ⟨[100, 200], [5]⟩ = .ok (Arr.flat [7, 100, 200, 8, 9]) :=
+  insertFlat_one_index (Arr.flat [7, 8, 9]) 1 ⟨[100, 200], [5]⟩ rfl (by decide) (by decide) (by decide)
+example : (Arr.flat [7, 8, 9]).insertFlat [1] ⟨[], [0]⟩ = .err .BroadcastShapeMismatch :=
+  (insertFlat_rejects _ _ _).2.2 (by decide) rfl (by decide) (.inr (.inl rfl))
+example : e20.insertFlat [0] (Arr.flat [5]) = .ok (Arr.flat [5]) :=
+  insertFlat_one_index e20 0 (Arr.flat [5]) rfl (by decide) (by decide) (by decide)
 
 end ArrModel.C13
